@@ -6,7 +6,7 @@
    front-end fills with references and the visitor never visits). *)
 From Coq Require Import List String Bool.
 From Cog Require Import Model.IR Model.Passes Model.Filter Model.Process Model.Refs Model.Spec05
-     Proofs.PassLemmas Proofs.C05Proofs Model.PassesChain Model.NF Gen.Chains_gen Proofs.ChainPresProofs Proofs.ChainPhpJavaProofs Proofs.ChainRefsProofs Proofs.ChainRefsProofs2.
+     Proofs.PassLemmas Proofs.C05Proofs Model.PassesChain Model.NF Gen.Chains_gen Proofs.ChainPresProofs Proofs.ChainPhpJavaProofs Proofs.ChainRefsProofs Proofs.ChainRefsProofs2 Proofs.ChainMappingsProofs.
 Import ListNotations.
 
 Definition hidden_free_ss (ss : schemas) : Prop :=
@@ -215,3 +215,15 @@ Theorem chain_reference_theorems_nonvacuous :
    exists out, process chain_php w_inline_closed = Ok out /\ resolves out = true /\ List.length (objects_of out) < List.length (objects_of w_inline_closed)).
 Proof. split; [exact go_chain_references_nonvacuous|exact php_chain_references_nonvacuous]. Qed.
 Print Assumptions chain_reference_theorems_nonvacuous.
+(* mappings already present on input: the Python chain keeps `resolves` when FlattenDisjunctions leaves every
+   mapping-carrying union alone (fd_mappings_safe, computed on the model's state before that pass: its branches are
+   references resolving to non-unions with pairwise distinct type names); the failing case is the witness of
+   C05-flatten-case-colliding-branches *)
+Theorem flatten_disjunctions_keeps_mappings : forall ss out,
+  fd_mappings_safe ss = true -> mappings_ok ss -> flatten_disjunctions ss = Ok out -> mappings_ok out.
+Proof. exact fd_keeps_mappings. Qed.
+Print Assumptions flatten_disjunctions_keeps_mappings.
+Theorem python_chain_keeps_resolving_with_mappings : forall ss out,
+  wf_refs_input ss -> python_fd_safe ss = true -> resolves ss = true -> process chain_python ss = Ok out -> resolves out = true.
+Proof. exact python_chain_keeps_resolving_mappings. Qed.
+Print Assumptions python_chain_keeps_resolving_with_mappings.
